@@ -1,5 +1,5 @@
 SPECIFICATION Spec
 CONSTANT Devs = {}
 INVARIANTS ProcessSurvives ReleasedWhenQuiescent
-PROPERTIES ReturnsAfterPeerGone
+PROPERTIES ReturnsAfterPeerGone SilentPeersExpire
 CHECK_DEADLOCK FALSE
